@@ -8,7 +8,7 @@ import numpy as np
 
 from vlib import gen_c19 as G
 from vlib import gen_sched as GS
-from vlib.runner import Info, Outside, Reject, Sub, Violation
+from vlib.runner import HarnessError, Info, Outside, Reject, Sub, Violation
 
 from xdsl.dialects import arith
 from xdsl.dialects.builtin import IntegerAttr, IntegerType
@@ -431,17 +431,19 @@ def _interp(ops, env, w):
             raise Violation("pack_bitlist:emitted-op-does-not-verify", dict(op=op.name, error=str(ex)[:200]))
         if isinstance(op, arith.ConstantOp):
             if op.result.type != ty or not isinstance(op.value, IntegerAttr):
-                raise Violation("pack_bitlist:constant-of-wrong-type", dict(type=str(op.result.type)))
+                raise HarnessError("pack_bitlist evaluator: constant of another width (not a violation: extend the evaluator)")
             env[op.result] = op.value.value.data & mask
             continue
         if len(op.operands) != 2 or len(op.results) != 1:
-            raise Violation("pack_bitlist:unexpected-op-emitted", dict(op=op.name))
+            raise HarnessError(f"pack_bitlist evaluator: no semantics for op {op.name} (not a violation: extend the evaluator)")
         for v in op.operands:
             if v not in env:
                 raise Violation("pack_bitlist:operand-not-defined-before-use", dict(op=op.name))
         a, b = env[op.operands[0]], env[op.operands[1]]
         if op.results[0].type != ty:
-            raise Violation("pack_bitlist:result-of-wrong-type", dict(op=op.name, type=str(op.results[0].type)))
+            if op is ops[-1]:
+                raise Violation("pack_bitlist:result-of-wrong-type", dict(op=op.name, type=str(op.results[0].type)))
+            raise HarnessError("pack_bitlist evaluator: intermediate value of another width (not a violation: extend the evaluator)")
         if isinstance(op, arith.ShLIOp):
             if b >= w:
                 raise Violation("pack_bitlist:shift-amount-not-below-width", dict(shift=b))
@@ -459,7 +461,7 @@ def _interp(ops, env, w):
         elif isinstance(op, arith.AddiOp):
             v = (a + b) & mask
         else:
-            raise Violation("pack_bitlist:unexpected-op-emitted", dict(op=op.name))
+            raise HarnessError(f"pack_bitlist evaluator: no semantics for op {op.name} (not a violation: extend the evaluator)")
         env[op.results[0]] = v
     return env
 
